@@ -1359,6 +1359,10 @@ class FortranFile:
                 do_skip = True
             if do_skip:
                 continue
+            # Preprocessor directives are not statements: the '&' of '&&' in an
+            # #if condition must not be taken for a continuation mark
+            if get_full and FRegex.PP_ANY.match(line):
+                continue
             # Get full line, seek forward for code lines
             # @note line_no-1 refers to the array index for the current line
             if get_full:
